@@ -21,6 +21,8 @@ package utils
 //@       arg(yubiattest.ParseCertificate, p0 + k, 0) == ret(pem.Decode, d0 + k, 0).Bytes))
 //@   ensures [blocks-are-read-one-after-the-other] forall(k, 1 <= k && k < calls(pem.Decode) - d0, arg(pem.Decode, d0 + k, 0) == ret(pem.Decode, d0 + k - 1, 1))
 //@   ensures [a-block-that-does-not-parse-is-an-error] (calls(yubiattest.ParseCertificate) > p0 && ret(yubiattest.ParseCertificate, calls(yubiattest.ParseCertificate) - 1, 1) != nil) ==> err != nil
+//@   ensures [what-follows-the-last-block-is-blank] (err == nil && calls(pem.Decode) - d0 > len(certs)) ==>
+//@     blankOnly(contentOf(argc(pem.Decode, calls(pem.Decode) - 1, 0), off(arg(pem.Decode, calls(pem.Decode) - 1, 0)), len(arg(pem.Decode, calls(pem.Decode) - 1, 0))))
 //@   ensures [every-block-is-parsed] calls(pem.Decode) - d0 >= calls(yubiattest.ParseCertificate) - p0
 //@   loop 1:
 //@     invariant certs == nil || fresh(arr(certs))
